@@ -247,7 +247,13 @@ class C08(Prop):
                 arr = (ctypes.c_double * max(count, 1))(*[(c + i) / 3.0 for i in range(count)])
                 p = lib.cJSON_CreateDoubleArray(arr, count)
             else:
-                arr = (ctypes.c_char_p * max(count, 1))(*[STRS[(c + i) % len(STRS)] for i in range(count)])
+                vals = [STRS[(c + i) % len(STRS)] for i in range(count)]
+                if count and c % 7 == 3:
+                    # a missing (NULL) entry: what the constructor makes of it is not specified (today: the call fails), but a
+                    # refused request must still not crash it or leave anything behind
+                    vals[(c // 7) % count] = None
+                    pre.args["oddity"] = True
+                arr = (ctypes.c_char_p * max(count, 1))(*vals)
                 p = lib.cJSON_CreateStringArray(arr, count)
             if p:
                 pre.roots.append(p)
